@@ -9,6 +9,7 @@ import (
 	"os/exec"
 	"path"
 	"path/filepath"
+	"runtime"
 	"strconv"
 	"strings"
 	"sync"
@@ -436,6 +437,7 @@ func judgeC03(root string, c c03Case) (string, string) {
 	if c.Coop {
 		h.queue = append(h.queue, &types.Packet{Type: types.PACKET_STAT})
 	}
+	baseGoroutines := runtime.NumGoroutine()
 	done := make(chan error, 1)
 	go func() {
 		defer func() {
@@ -486,6 +488,19 @@ func judgeC03(root string, c c03Case) (string, string) {
 	}
 	if rerr != nil && strings.HasPrefix(rerr.Error(), "panic:") {
 		return "panic", rerr.Error()
+	}
+	// On its error paths Receive returns before the disk writer's per-file goroutines have ended (they only get
+	// their context cancelled). They must not be mistaken for the next case's doing: the cases of one child run one
+	// after the other over the same destination path, so wait until this call's goroutines are gone.
+	cancel()
+	for i := 0; i < 5000 && runtime.NumGoroutine() > baseGoroutines; i++ {
+		runtime.Gosched()
+	}
+	for t0 := time.Now(); runtime.NumGoroutine() > baseGoroutines && time.Since(t0) < 3*time.Second; {
+		time.Sleep(100 * time.Microsecond)
+	}
+	if runtime.NumGoroutine() > baseGoroutines {
+		lingering.Add(1)
 	}
 	after, err := outsideState(root)
 	if err != nil {
@@ -566,8 +581,13 @@ func judgeC03(root string, c c03Case) (string, string) {
 
 var cancelled atomic.Int64
 
+// lingering counts receives whose goroutines were still alive 3 s after the call had returned and its context was
+// cancelled (reported in the evidence; C04 decides goroutine termination under a controlled scheduler).
+var lingering atomic.Int64
+
 type c03Out struct {
 	Cancelled int64          `json:"cancelled"`
+	Lingering int64          `json:"lingering"`
 	Evals     int64          `json:"evals"`
 	Viol      []c03Viol      `json:"viol"`
 	Count     map[string]int `json:"count"`
@@ -731,7 +751,7 @@ func childC03(args []string) int {
 			}
 		}
 	}
-	json.NewEncoder(os.Stdout).Encode(c03Out{Evals: out.Evals, Cancelled: cancelled.Load()})
+	json.NewEncoder(os.Stdout).Encode(c03Out{Evals: out.Evals, Cancelled: cancelled.Load(), Lingering: lingering.Load()})
 	return 0
 }
 
@@ -782,6 +802,7 @@ func runC03(r *evid.Run) {
 				}
 				agg.Evals += o.Evals
 				agg.Cancelled += o.Cancelled
+				agg.Lingering += o.Lingering
 				for _, v := range o.Viol {
 					agg.Count[v.Key]++
 					agg.Viol = append(agg.Viol, v)
@@ -833,6 +854,7 @@ func runC03(r *evid.Run) {
 		}
 		total += o.Evals
 		r.Add("receive_needed_cancel_after_unsolicited_fin", o.Cancelled)
+		r.Add("receive_goroutines_alive_3s_after_return", o.Lingering)
 		kept := map[string]int{}
 		for _, v := range o.Viol {
 			kept[v.Key]++
